@@ -306,11 +306,13 @@ def c01():
                   for i in range(nrec)]     # two records carry a 70 kB string in every string slot
             cut = sorted(ck.rng.sample(range(1, nrec), min(2, nrec - 1)))
             hist = "a" * cut[0] + "w" + "a" * (cut[1] - cut[0]) + "w" + "a" * (nrec - cut[1]) + "w"
-            p.cases.append({"page": page, "codec": CODECS[b % 3], "poff": ck.rng.randrange(16), "ops": ops_of(hist, rr), "light": True,
-                            "mutate": True, "reads": [{"mode": "plain"}]})
-            ck.add("evaluations")
-            ck.add("random_big_workloads")
-            distinct.add((p.key, "big", b, page))
+            # the workload with the 70 kB strings (pages beyond the snappy block size and the deflate window) runs under every codec
+            for codec in (CODECS if b == 0 else [CODECS[b % 3]]):
+                p.cases.append({"page": page, "codec": codec, "poff": ck.rng.randrange(16), "ops": ops_of(hist, rr), "light": True,
+                                "mutate": True, "reads": [{"mode": "plain"}]})
+                ck.add("evaluations")
+                ck.add("random_big_workloads")
+                distinct.add((p.key, "big", b, page, codec))
         # scale beyond what one event per record can carry: >= 65 536 records / values in one page / level entries in one chunk
         if p.key.startswith("hist:") or p.key in ("fixed:Flat", "fixed:AllTypes", "fixed:Document"):
             small_schema = p.key.startswith("hist:")
@@ -2067,9 +2069,9 @@ def c14():
     firsts = []
     for key in sorted(by_base):
         ds = sorted(by_base[key], key=lambda d: zlib.crc32(d[2].encode()))
-        # first steps that are listed findings on their own (embedding inside a nested struct does not compile) teach nothing more
-        emb1 = [d for d in ds if d[2].startswith("embed") and "%s || %s" % (key, d[2]) not in c14_bad]
-        exc1 = [d for d in ds if d[2].startswith("excl") and "%s || %s" % (key, d[2]) not in c14_bad]
+        # (the choice must not depend on the list of known findings, or regenerating that list would change the programs)
+        emb1 = [d for d in ds if d[2].startswith("embed")]
+        exc1 = [d for d in ds if d[2].startswith("excl")]
         firsts += emb1[:1 if q else 2] + exc1[:1]
     rows2 = _export("ExportDeco", {"SchemaFile": '"schemas.ndjson"', "OutFile": '"deco.ndjson"'}, "deco.ndjson", tag="deco2",
                     files={"schemas.ndjson": "".join(json.dumps({"id": str(i), "schema": [strip_deco(n) for n in f]}) + "\n"
